@@ -41,6 +41,7 @@ def check(ctx):
     base = [G.dec(l) for l in C.load_corpus("sema")] + GP.gen_programs(ctx.seed + 70, 2500 if q else 40000)
     near = [perturb(t, rnd) for t in base[: (1500 if q else 20000)]]
     base += [t for t in near if t]
+    base = C.uniq(base)
     recs, stats = SP.run(ctx, base, tag="c17base")
     lexl = C.run_impl(ctx, "lex", [G.enc(t) for t in base], tag="c17lex")
     variants = []     # (base index, mode, text, mapping)
@@ -62,6 +63,7 @@ def check(ctx):
         for o in (pts if len(pts) <= 4 else rnd.sample(pts, 4)):
             variants.append((i, "prefix", OC.prefix_at(t, o), None))
         variants.append((i, "twice", t, None))
+    variants = C.uniq(variants, key=lambda v: (v[0], v[1], v[2]))
     ctx.log(f"{len(base)} base programs, {len(variants)} variants")
     vout = C.run_impl(ctx, "sema", [G.enc(v[2]) for v in variants], tag="c17var")
     vast = C.run_impl(ctx, "ast", [G.enc(v[2]) for v in variants], tag="c17vast")
